@@ -114,6 +114,8 @@ def plain_sections(rng, n, machine):
     for i in range(n):
         t = rng.choice(types)
         nm = rng.choice(['.text', '.data', '.bss', '', '.dup', '.dup', 'ünïcode.é', '.a', 'xx.a', '.very' + 'long' * 20, '.debug_x',
+                         # lengths on both sides of the multiples of the chunk size string readers use
+                         '.' + 'n' * (rng.choice([63, 64, 65, 127, 128, 129, 191, 192, 256, 1024]) - 1),
                          'sec%d' % i, 'sec%d' % i])
         data = bytes(rng.getrandbits(8) for _ in range(rng.choice([0, 1, 7, 64, 300])))
         s = elfgen.Sec(nm, t, flags=rng.choice([0, 2, 3, 6, 0x30, 0x400, rng.getrandbits(32) & ~0x800]),
